@@ -89,6 +89,22 @@ class Pred(object):
             (chr(i[1]) if i[0] == 'lit' else ('%s-%s' % (chr(i[1]), chr(i[2])) if i[0] == 'range' else i[1])) for i in self.items))
 
 
+class ButNot(object):
+    """Character predicate ``a and not b`` (a consuming item preceded by a one-character negative look-ahead)."""
+
+    def __init__(self, a, b):
+        self.a, self.b = a, b
+
+    def test(self, ch):
+        return self.a.test(ch) and not self.b.test(ch)
+
+    def points(self):
+        return self.a.points() | self.b.points()
+
+    def __repr__(self):
+        return '%r&~%r' % (self.a, self.b)
+
+
 def _category(name, c, ascii_=False):
     if len(c) != 1:
         return False
@@ -179,18 +195,104 @@ def build(pattern, flags=0, lookahead_consumes=True):
     st = {'ic': bool(tree.state.flags & sre_c.SRE_FLAG_IGNORECASE), 'dotall': bool(tree.state.flags & sre_c.SRE_FLAG_DOTALL),
           'ascii': bool(tree.state.flags & sre_c.SRE_FLAG_ASCII), 'lookahead_consumes': lookahead_consumes, 'groups': {}}
     s = nfa.new()
-    f = _seq(nfa, tree, s, st, top=True)
+    choices = _backref_choices(tree)
+    if choices:
+        # a back-reference is not regular in general - but to a group that can only hold one of a few literal characters it is a finite
+        # case distinction: one copy of the automaton per assignment of the referenced groups
+        import itertools as _it
+        f = nfa.new()
+        groups_ = sorted(choices)
+        for combo in _it.product(*[choices[g] for g in groups_]):
+            st['bind'] = dict(zip(groups_, combo))
+            a = nfa.new()
+            nfa.add_eps(s, a)
+            e = _seq(nfa, tree, a, st, top=True)
+            nfa.add_eps(e, f)
+        st['bind'] = {}
+    else:
+        f = _seq(nfa, tree, s, st, top=True)
     nfa.start, nfa.final = s, f
     nfa.info = st
     return nfa
 
 
+def _backref_choices(tree):
+    """{group number: [character codes]} for the groups that are referred back to and whose pattern is one literal / a set of literals."""
+    refs, defs = set(), {}
+
+    def walk(x):
+        if isinstance(x, sre_parse.SubPattern):
+            for it in x.data:
+                walk(it)
+        elif isinstance(x, tuple) and len(x) == 2:
+            op, av = x
+            if op is sre_c.GROUPREF:
+                refs.add(av)
+            elif op is sre_c.SUBPATTERN:
+                if av[0] is not None:
+                    defs[av[0]] = av[3]
+                walk(av[3])
+            elif op is sre_c.BRANCH:
+                for alt in av[1]:
+                    walk(alt)
+            elif op in (sre_c.MAX_REPEAT, sre_c.MIN_REPEAT):
+                walk(av[2])
+            elif op in (sre_c.ASSERT, sre_c.ASSERT_NOT):
+                walk(av[1])
+            elif hasattr(sre_c, 'ATOMIC_GROUP') and op is sre_c.ATOMIC_GROUP:
+                walk(av)
+    walk(tree)
+    out = {}
+    for g in refs:
+        body = defs.get(g)
+        if body is None or len(body) != 1:
+            return {}
+        op, av = body[0]
+        if op is sre_c.LITERAL:
+            out[g] = [av]
+        elif op is sre_c.IN and all(o is sre_c.LITERAL for o, _ in av) and len(av) <= 4:
+            out[g] = [a for _, a in av]
+        else:
+            return {}
+    return out
+
+
+def _single_pred(op, av, st):
+    """Predicate of an item that consumes exactly one character (None for anything else)."""
+    if op is sre_c.LITERAL:
+        return Pred([('lit', av)], False, st['ic'], ascii_=st.get('ascii', False))
+    if op is sre_c.NOT_LITERAL:
+        return Pred([('lit', av)], True, st['ic'], ascii_=st.get('ascii', False))
+    if op is sre_c.ANY:
+        return Pred([], any_=True, dotall=st['dotall'])
+    if op is sre_c.IN:
+        return _pred_of_in(av, st)
+    if op is sre_c.GROUPREF and av in st.get('bind', {}):
+        return Pred([('lit', st['bind'][av])], False, st['ic'], ascii_=st.get('ascii', False))
+    if op is sre_c.SUBPATTERN and av[0] is None and len(av[3]) == 1:
+        return _single_pred(av[3][0][0], av[3][0][1], st)
+    return None
+
+
 def _seq(nfa, sub, s, st, top=False):
     items = list(sub)
     cur = s
-    for i, (op, av) in enumerate(items):
+    i = 0
+    while i < len(items):
+        op, av = items[i]
         last = top and i == len(items) - 1
+        if op is sre_c.ASSERT_NOT and av[0] == 1 and len(av[1]) == 1 and i + 1 < len(items):
+            # (?!x)y with one-character x and y: the next character is a y that is not an x
+            neg = _single_pred(av[1][0][0], av[1][0][1], st)
+            pos = _single_pred(items[i + 1][0], items[i + 1][1], st)
+            if neg is not None and pos is not None:
+                t = nfa.new()
+                nfa.add_chr(cur, ButNot(pos, neg), t)
+                cur = t
+                i += 2
+                continue
         cur = _node(nfa, op, av, cur, st, last, first=(top and i == 0))
+        i += 1
     return cur
 
 
@@ -236,6 +338,15 @@ def _node(nfa, op, av, s, st, last=False, first=False):
             e = _seq(nfa, alt, a, st, top=False)
             # anchors/look-aheads that end an alternative of a top-level branch
             nfa.add_eps(e, t)
+        return t
+    if op is sre_c.GROUPREF and av in st.get('bind', {}):
+        t = nfa.new()
+        nfa.add_chr(s, Pred([('lit', st['bind'][av])], False, st['ic'], ascii_=st.get('ascii', False)), t)
+        return t
+    if op is sre_c.SUBPATTERN and av[0] in st.get('bind', {}):
+        t = nfa.new()
+        nfa.add_chr(s, Pred([('lit', st['bind'][av[0]])], False, False), t)
+        st['groups'][av[0]] = (s, t)
         return t
     if op is sre_c.SUBPATTERN:
         group, add_flags, del_flags, p = av
